@@ -187,6 +187,30 @@ def rule_m9(repo):
     return res
 
 
+def rule_m10(repo, rid='C04.M10', scope=None):
+    """Fast path and expansion compared over the conditions both test (rules/agree.py): no case in
+    which the evaluation reaches `return Thm(..)` while the expansion can only raise."""
+    from .agree import compare
+    res = RuleResult(rid, 'no case distinguished by tests common to a fast path and its expansion is accepted by the one and impossible for the other', floor=15 if scope is None else 8)
+    for mi in macro_index(repo):
+        if mi.eval is None or (scope is not None and not scope(mi)):
+            continue
+        gp = mi.cls.methods.get('get_proof_term')
+        if gp is None:
+            continue
+        r = compare(mi.eval, gp)
+        if r is None:
+            continue
+        shared, bad = r
+        if bad:
+            case = ', '.join(('' if v else 'not ') + a for a, v in sorted(bad[0].items()))
+        res.add('%s :: eval-vs-expansion' % mi.key, not bad,
+                'agree on all cases of %d common tests' % len(shared) if not bad else
+                'in %d cases of the %d common tests the evaluation can return a theorem while the expansion can only raise, e.g. when [%s]: '
+                'one of the two has the test the wrong way round' % (len(bad), len(shared), case), mi.eval.loc)
+    return res
+
+
 def rule_m7(repo):
     """The `auto` macro evaluates through logic.auto.norm / solve, whose process-wide memo tables are keyed by the
     term alone: what is stored must have been obtained without side conditions (the rule of C10.V4)."""
@@ -197,4 +221,4 @@ def rule_m7(repo):
 def rules(repo):
     m1 = mr.hyps_rule(repo, 'C04.M1', mr.all_macros, floor=95)
     m2 = mr.zip_rule(repo, 'C04.M2', mr.macro_eval_functions(repo), floor=4)
-    return [m1, m2, rule_m3(repo), rule_m5(repo), rule_m6(repo), rule_m7(repo), rule_m8(repo), rule_m9(repo)]
+    return [m1, m2, rule_m3(repo), rule_m5(repo), rule_m6(repo), rule_m7(repo), rule_m8(repo), rule_m9(repo), rule_m10(repo)]
